@@ -25,7 +25,7 @@ CONFIG = dict(
              'reuse (round 3, object re-use): 2-3 analyses one after the other, each with a NEW hercules.Pipeline into which the SAME DevsAnalysis instance (and in half of '
              'the cases the same CommitsAnalysis instance) is deployed, then Initialize and Run: on the same history again, on a prefix of it (the history grew / shrank '
              'between the analyses), on a variant with other hashes (another repository), with ConsiderEmptyCommits and the hibernation distance changing from analysis '
-             'to analysis; in one analysis of six (not the last) the recording item returns an error half way (error path: the state the leaf items hold is read with '
+             'to analysis, and in a third of the later analyses the SAME Pipeline object is initialised and run again instead of a new one (possible since 3598ee8); in one analysis of six (not the last) the recording item returns an error half way (error path: the state the leaf items hold is read with '
              'Finalize and compared with the model, then the items are used again); every analysis is judged exactly like a first one by all oracles and compared with '
              'the model started from its initial state (the fresh-instance twin); after the last analysis the results handed out by the earlier ones are serialised '
              'again and judged again when they changed (aliasing).  Generators: every history of <=3 commits twice / prefix-then-all, every history of 4 (thorough 5) '
